@@ -51,6 +51,10 @@ fn run_one_inner(cfg: &Cfg, plan: &[Action], opts: &RunOpts) -> RunOutcome {
     let (mut out, rt_res) = run_sim(cfg.seed, sched.clone(), move |sched| async move {
         let mut cl = Cluster::new(cfg2, sched.clone(), keep_log);
         cl.hub.inner.lock().unwrap().focus = focus;
+        if let Some((node, k, applied)) = cl.cfg.arm {
+            let i = node as usize % cl.n();
+            cl.nodes[i].store.lock().unwrap().fault_at = Some((k, engine::WriteFault::Crash { applied }));
+        }
         for i in 0..cl.n() {
             cl.start(i);
         }
@@ -79,6 +83,7 @@ fn run_one_inner(cfg: &Cfg, plan: &[Action], opts: &RunOpts) -> RunOutcome {
             sched_fp: sched.fingerprint(),
             spawned: sched.spawned(),
             harness_error: shutdown.err(),
+            writes: cl.nodes.iter().map(|n| n.store.lock().unwrap().write_attempts).collect(),
             ..Default::default()
         };
         let i = cl.hub.inner.lock().unwrap();
